@@ -384,6 +384,8 @@ class FakeBleClient:
         self.gatt_error_at = None     # raise BleakError at the n-th GATT operation from now
         self.disconnect_delay = 0.0
         self.disconnect_fails = False
+        self.notify_fail = {}         # iid -> "once" | "always"
+        self.notify_calls = []
         self._extra = {}
         self.oversize = []
         self.ops = 0
@@ -471,6 +473,15 @@ class FakeBleClient:
         return bytearray(d)
 
     async def start_notify(self, h, cb):
+        await asyncio.sleep(0)
+        if not self.is_connected:
+            raise BleakError("simulated: not connected")
+        self.notify_calls.append(h.iid)
+        if h.iid in self.notify_fail:
+            # the stack refuses this one subscription (CCCD write failed ...); the link stays up
+            if self.notify_fail[h.iid] == "once":
+                del self.notify_fail[h.iid]
+            raise BleakError(f"simulated: start_notify failed for {h.iid}")
         self.notify[h.iid] = cb
 
     async def disconnect(self):
